@@ -178,6 +178,27 @@ def run_case(case, ctx):
         dom.node_numbering.reverse()
     except AttributeError:
         pass
+    else:
+        # ... and the customised domain itself follows its new table everywhere (connectivity, shape functions, derivatives)
+        nn2 = np.asarray(dom.node_numbering, dtype=float)
+        i0, j0, k0 = int(rng.integers(0, nx)), int(rng.integers(0, ny)), int(rng.integers(0, nzz))
+        want_c = [int(num[i0 + int(nn2[a, 0] > 0), j0 + int(nn2[a, 1] > 0), (k0 + int(nn2[a, 2] > 0)) if dim == 3 else 0]) for a in range(2 ** dim)]
+        got_c = np.asarray(dom.get_elemconnectivity(i0, j0, k0)).ravel().tolist()
+        require(got_c == want_c, "customised-numbering/get_elemconnectivity-does-not-follow-the-table", got=got_c, want=want_c)
+        for a in range(2 ** dim):
+            pc = nn2[a] * size / 2 * np.array([1, 1, 1 if dim == 3 else 0])
+            Na = np.asarray(dom.eval_shape_fun(pc))
+            ea = np.zeros(2 ** dim)
+            ea[a] = 1
+            require(bool(np.allclose(Na, ea, atol=1e-12)), "customised-numbering/shape-functions-do-not-follow-the-table", corner=a, N=Na)
+        pr = rng.uniform(-0.4, 0.4, 3) * size * np.array([1, 1, 1 if dim == 3 else 0])
+        dNr = np.asarray(dom.eval_shape_fun_der(pr))
+        for d in range(dim):
+            e = np.zeros(3)
+            e[d] = 1e-3 * size[d]
+            fd = (np.asarray(dom.eval_shape_fun(pr + e)) - np.asarray(dom.eval_shape_fun(pr - e))) / (2e-3 * size[d])
+            require(bool(np.allclose(dNr[d], fd, rtol=1e-8, atol=1e-9 / size[d])), "customised-numbering/derivatives-are-not-the-gradients-of-the-shape-functions", axis=d)
+        ctx.count("customised_numbering_checked")
     dom2 = pym.DomainDefinition(nx, ny, nz, unitx=size[0], unity=size[1], unitz=size[2])
     require(np.array_equal(np.asarray(dom2.conn), conn), "new-domain-inherits-customised-numbering-of-another-instance")
     N0 = np.asarray(dom2.eval_shape_fun(np.asarray(nn[0]) * size / 2 * np.array([1, 1, 1 if dim == 3 else 0])))
